@@ -151,14 +151,16 @@ def models():
     sl = C('Sl', kind='strlike', rejects=['abc'])
     us = C('Us', kind='userstring')
     holder = C('Ho', [P('c', K('Col')), P('s', Opt(K('Sl')), ['null'])])
-    ms.append(M('enum_str', [col, sl, us, holder],
-                [K('Col'), K('Sl'), K('Us'), K('Ho'), L(K('Col')),
+    hd = C('Hd', [P('m', D(INT, K('Us'))), P('k', D(K('Col'), K('Sl')),
+                                             ['null'])])
+    ms.append(M('enum_str', [col, sl, us, holder, hd],
+                [K('Col'), K('Sl'), K('Us'), K('Ho'), K('Hd'), L(K('Col')),
                  U(K('Col'), INT), U(BOOL, K('Col')), U(K('Col'), BOOL),
                  D(INT, K('Sl')), D(K('Col'), K('Us'))],
-                keys=['c', 's', 'red'],
+                keys=['c', 's', 'red', 'm', 'k'],
                 scalars=[S_RED, S_BLUE, S_ABC, S_TRUE, S_42],
                 stags=['!Col', '!Sl'],
-                rtypes=[K('Col'), K('Sl'), K('Us'), K('Ho'), L(K('Col')),
+                rtypes=[K('Col'), K('Sl'), K('Us'), K('Ho'), K('Hd'), L(K('Col')),
                         U(K('Col'), INT), D(INT, K('Sl')),
                         D(K('Col'), K('Us'))]))
     # ---- hierarchy: chain with abstract root, fork -------------------------
